@@ -42,7 +42,7 @@ from cryptography.hazmat.primitives.kdf.hkdf import HKDF  # noqa
 from cryptography.hazmat.primitives.serialization import load_der_public_key  # noqa
 from mpgameserver.serializable import serialize_value, deserialize_value  # noqa
 from mpgameserver.connection import (ConnectionStatus, PacketType, HandshakeServerHelloMessage,
-                                     HandshakeClientChallengeResponseMessage, HandshakeClientHelloMessage)  # noqa
+                                     HandshakeClientChallengeResponseMessage, HandshakeClientHelloMessage, ClientServerConnection, PacketHeader)  # noqa
 
 PROPERTY = "C02"
 LEVEL = "model_checking"
@@ -246,7 +246,7 @@ def honest_capture(root_index=None, key_offset=None, rnd_seed=0):
         w.close()
 
 
-def run_substitution(which, make, root_index=None, key_offset=None):
+def run_substitution(which, make, root_index=None, key_offset=None, warm=False):
     root_index = ROOT if root_index is None else root_index
     key_offset = KOFF if key_offset is None else key_offset
     """fresh handshake in which the datagram of type ``which`` is replaced by make(genuine bytes) (bytes or None=drop)"""
@@ -265,6 +265,16 @@ def run_substitution(which, make, root_index=None, key_offset=None):
                         w.net.remove(d)
                     else:
                         d.data = bytes(new)
+                        if warm and which == SH:
+                            # process history: ANOTHER client of the same process, not pinned to any key, is shown the very
+                            # same bytes first (it may well accept a self-signed hello) - what the pinned client does with
+                            # them afterwards must not depend on that
+                            try:
+                                other = ClientServerConnection(("10.9.9.9", 9))
+                                other._sendClientHello()
+                                other._recv_datagram(PacketHeader.from_bytes(False, d.data), d.data)
+                            except Exception:
+                                pass
         hook(w)   # the client hello is already in flight
         step_world(w, mon, hook, 14)
         c = w.clients[0].conn
@@ -443,13 +453,16 @@ def forgery_work(arg):
     for i, (label, which, fn) in enumerate(items):
         if i % n != k:
             continue
-        total += 1
-        outcome, v, applied = run_substitution(which, fn)
-        outcomes.inc("%s -> %s" % (label.split(":")[0], outcome))
-        if not applied:
-            viols.setdefault(("harness", "forgery was never applied"), [0, {"part": "forgery", "label": label}, label])[0] += 1
-        for oracle, sig, msg in v:
-            viols.setdefault((oracle, sig), [0, {"part": "forgery", "label": label}, "%s | %s" % (label, msg)])[0] += 1
+        for warm in ((False, True) if which == SH else (False,)):
+            total += 1
+            outcome, v, applied = run_substitution(which, fn, warm=warm)
+            outcomes.inc("%s -> %s" % (label.split(":")[0], outcome))
+            if not applied:
+                viols.setdefault(("harness", "forgery was never applied"), [0, {"part": "forgery", "label": label}, label])[0] += 1
+            for oracle, sig, msg in v:
+                if warm:
+                    sig += " [after another, unpinned client of the same process was shown the same hello]"
+                viols.setdefault((oracle, sig), [0, {"part": "forgery", "label": label, "warm": warm}, "%s | %s" % (label, msg)])[0] += 1
     if k == 0:
         # forged challenge responses: need the token of the running session
         for vi in range(15):
